@@ -152,7 +152,7 @@ claim("C01", "E2+E1",
 
 claim("C18", "E2+E5",
       "static analysis: the C01 hash-order taint analysis restricted to the name flow (name-id allocation, name table assembly, fvar/STAT references, fea-rs name handling); forward data-flow from the name-id minting calls to output-table fields compared with the fields the remap function writes (sibling agreement); path enumeration over the CFG of the NameId lookup predicates against the allocator's reserved-id constants",
-      "Static decision of FIVE clauses of C18: (T7) ids below 256 only where the specification allows - every accepting path of the backend's NameId lookup predicates (fvar, STAT) establishes id >= 256 or id in the reserved set the allocator and the fvar specification agree on (2, 17), and only the default instance may ask for a reserved id (found: subfamilyNameID 1 for a default instance named like the family; repaired); (N5) every name record derived from the source reaches the merge with the feature file's records, which replaces one only on an equal "
+      "Static decision of SIX clauses of C18: (T8) a non-empty record - inside StaticMetadata::new every registration of a NamedInstance field as a name record is preceded by an emptiness test of that field (found: stylename=\"\" produced an empty record that fvar referred to; repaired); (T7) ids below 256 only where the specification allows - every accepting path of the backend's NameId lookup predicates (fvar, STAT) establishes id >= 256 or id in the reserved set the allocator and the fvar specification agree on (2, 17), and only the default instance may ask for a reserved id (found: subfamilyNameID 1 for a default instance named like the family; repaired); (N5) every name record derived from the source reaches the merge with the feature file's records, which replaces one only on an equal "
       "platform/encoding/language/name-id key (seeded); (T5) the feature-code name-id allocator is advanced on every path of the function that hands an id out "
       "(found: a group of empty names left it untouched and the next group got the same id; repaired); (H) the name table and the name ids other tables refer to do not depend on anything but the source, i.e. "
       "not on per-process hash iteration order; (T4) every output-table field that receives a name id minted by the feature compiler (featureNames, "
